@@ -148,9 +148,11 @@ def canonical(src):
     `typedef A B` / `using B = A`, braces around single-statement bodies of for / while / if / else, a loop condition
     written `bound > i` instead of `i < bound`, `x == false` / `!x`, redundant parentheses around a single identifier."""
     s = strip_comments(src)
+    s = drop_verif_blocks(s)
     s = re.sub(r"^[ \t]*#[ \t]*pragma[^\n]*$", " ", s, flags=re.M)
     s = re.sub(r"\s+", " ", s)
     s = re.sub(r"\bnullptr\b", "NULL", s)
+    s = re.sub(r"\bconstexpr\b", "const", s)
     s = re.sub(r" \.(?=[A-Za-z_])", ".", s)
     s = s.replace(".noalias()", "")
     s = re.sub(r"\b([A-Za-z_]\w*)\+\+(?= ?[);,])", r"++\1", s)
@@ -168,7 +170,75 @@ def canonical(src):
     s = re.sub(r"(?<=[(\[])\((\w+)\)(?! ?[\w(])", r"\1", s)
     s = add_braces(s)
     s = re.sub(r"\s+", " ", s)
+    # `for (; c;)` is `while (c)`
+    s = re.sub(r"\bfor \( ?; ([^;]+?) ?; ?\)", r"while (\1)", s)
+    s = while_to_for(s)
     return s
+
+
+def drop_verif_blocks(s):
+    """the verification hooks (`#ifdef TAPKEE_VERIF … [#else …] #endif`) are not part of the library's behaviour:
+    the guarded text is dropped (the #else branch, if any, is kept); nested conditionals inside are respected"""
+    out = []
+    lines = s.split("\n")
+    i = 0
+    while i < len(lines):
+        if re.match(r"\s*#\s*(ifdef\s+TAPKEE_VERIF\b|if\s+defined\s*\(?\s*TAPKEE_VERIF\s*\)?\s*$)", lines[i]):
+            depth, keep = 1, False
+            i += 1
+            while i < len(lines) and depth > 0:
+                l = lines[i]
+                if re.match(r"\s*#\s*if", l):
+                    depth += 1
+                elif re.match(r"\s*#\s*endif", l):
+                    depth -= 1
+                    if depth == 0:
+                        i += 1
+                        break
+                elif depth == 1 and re.match(r"\s*#\s*else", l):
+                    keep = True
+                    i += 1
+                    continue
+                if keep:
+                    out.append(l)
+                i += 1
+            continue
+        out.append(lines[i])
+        i += 1
+    return "\n".join(out)
+
+
+def while_to_for(s):
+    """`T i = a; while (i < n) { …; ++i; }`  ->  `for (T i = a; i < n; ++i) { … }` when the counter is declared just before
+    the loop, incremented as the last statement of the body and the body has no `continue`"""
+    pat = re.compile(r"(" + TY + r") (\w+) = ([^;{}]+); while \(\2 (<=|<|!=) ([^(){};]+)\) \{")
+    pos = 0
+    while True:
+        m = pat.search(s, pos)
+        if not m:
+            return s
+        i = m.end() - 1
+        depth = 0
+        end = None
+        for j in range(i, len(s)):
+            if s[j] == "{":
+                depth += 1
+            elif s[j] == "}":
+                depth -= 1
+                if depth == 0:
+                    end = j
+                    break
+        if end is None:
+            return s
+        body = s[i + 1:end]
+        inc = "++%s; " % m.group(2)
+        if body.endswith(inc) and not re.search(r"\bcontinue\b", body) and body.count("++" + m.group(2)) == 1:
+            new = "for (%s %s = %s; %s %s %s; ++%s) {%s}" % (m.group(1), m.group(2), m.group(3), m.group(2), m.group(4),
+                                                             m.group(5), m.group(2), body[:-len(inc)])
+            s = s[:m.start()] + new + s[end + 1:]
+            pos = m.start() + 4
+        else:
+            pos = m.end()
 
 
 class Source:
@@ -585,17 +655,29 @@ COND_IS = re.compile(r"^if \(\s*(!?)\s*parameters\[(\w+)\]\.is\((\w+)\)\s*\)\s*$
 REL = {"<": "<", ">": ">", "<=": "≤", ">=": "≥", "==": "=", "!=": "≠"}
 
 
-def validate_statements(body, what):
+def validate_statements(body, what, helper=None, depth=0):
     """a validate() body -> list of Lean Bool terms.  Grammar: ( [if (parameters[kw] REL literal)] CHECK ; )*"""
     terms = []
     env = {}
     rest = body.strip()
     while rest:
-        dm = re.match(r"const IndexType (\w+) = (?:static_cast<IndexType>\()?parameters\[(\w+)\]\)?;\s*", rest)
+        lg = re.match(r"(?:tapkee::)?Logging::instance\(\)\.message_\w+\((?:[^();]|\([^()]*\))*\);\s*", rest)
+        if lg:                       # logging has no part in validation
+            rest = rest[lg.end():]
+            continue
+        hc = re.match(r"(?:this->)?(\w+)\(\);\s*", rest)
+        if hc and helper is not None and depth < 4:      # a member function that holds part of the checks
+            hb = helper(hc.group(1))
+            if hb is None:
+                raise TranslateError("%s: call of %s() whose body was not found" % (what, hc.group(1)))
+            terms += validate_statements(hb, what + "/" + hc.group(1), helper, depth + 1)
+            rest = rest[hc.end():]
+            continue
+        dm = re.match(r"(?:const )?IndexType (\w+) = ([^;]+);\s*", rest)
         if dm:
-            if dm.group(2) not in KW_FIELD or KW_FIELD[dm.group(2)][1] != "Int":
-                raise TranslateError("%s: local bound to a non-integer keyword %r" % (what, dm.group(2)))
-            env[dm.group(1)] = "c." + KW_FIELD[dm.group(2)][0]
+            e = dict(VAL_ENV)
+            e.update(env)
+            env[dm.group(1)] = "(int)" + bound_expr(dm.group(2), e, "Int", what)
             rest = rest[dm.end():]
             continue
         m = CHECK.match(rest)
@@ -668,8 +750,14 @@ def gen_validation(src, out):
         s = src.norm(rel)
         if "__TAPKEE_IMPLEMENTATION(%s)" % cls not in s:
             raise TranslateError("%s: __TAPKEE_IMPLEMENTATION(%s) not found" % (rel, cls))
-        body = src.function_body(rel, r"__TAPKEE_IMPLEMENTATION\(%s\)\s*void validate\(\)" % cls, cls + "::validate")
-        terms = validate_statements(body, cls + "::validate")
+        body = src.function_body(rel, r"__TAPKEE_IMPLEMENTATION\(%s\).*?void validate\(\)" % cls, cls + "::validate")
+
+        def helper(name, rel=rel):
+            try:
+                return src.function_body(rel, r"\bvoid %s\(\)" % re.escape(name), name)
+            except TranslateError:
+                return None
+        terms = validate_statements(body, cls + "::validate", helper)
         out.raw("  | .%s, %s => %s" % (ctor_name, "c" if terms else "_", " && ".join(terms) or "true"))
         emb = src.function_body(rel, r"__TAPKEE_IMPLEMENTATION\(%s\).*?TapkeeOutput embed\(\)" % cls, cls + "::embed")
         if "find_neighbors_with(" in emb:
@@ -968,10 +1056,15 @@ def gen_sites(src, out):
     out.comment("§2.8 routines/spe.hpp")
     body = src.function_body("tapkee/routines/spe.hpp", r"DenseMatrix spe_embedding\(", "spe_embedding")
     env = {"k": "k", "nupdates": "nu", "N": "N", "j": "j", "kk": "kk"}
-    m = re.search(r"while \(nupdates > ([^)]+)\) \{ nupdates = ([^;]+); \}", body)
-    if not m or m.group(1).strip() != m.group(2).strip():
-        raise TranslateError("spe: clamp `while (nupdates > N / 2) nupdates = N / 2` not found")
-    out.defn("spe_nupdates_max", ["N"], E(m.group(1), env, what="spe clamp"), "`while (nupdates > %s) nupdates = %s`" % (m.group(1), m.group(2)))
+    m = re.search(r"(?:while|if) \(nupdates > ([^)]+)\) \{ nupdates = ([^;]+); \}", body)
+    if m and m.group(1).strip() == m.group(2).strip():
+        clamp = m.group(1)
+    else:
+        m = re.search(r"nupdates = std::min(?:<\w+>)?\((?:nupdates, ([^;]+)|([^;]+), nupdates)\);", body)
+        if not m:
+            raise TranslateError("spe: clamp `while (nupdates > N / 2) nupdates = N / 2` (or `nupdates = std::min(nupdates, N / 2)`) not found")
+        clamp = m.group(1) or m.group(2)
+    out.defn("spe_nupdates_max", ["N"], E(clamp, env, what="spe clamp"), "nupdates is clamped to `%s`" % clamp)
     m = re.search(r"Indices (\w+)\(N\);", body)
     if not m:
         raise TranslateError("spe: `Indices indices(N)` not found")
@@ -1073,7 +1166,7 @@ def gen_sites(src, out):
     if not m:
         raise TranslateError("quadtree.hpp: QT_NO_DIMS not found")
     out.defn("qt_no_dims", [], "(%s : Int)" % m.group(1), "quadtree.hpp: `static const int QT_NO_DIMS = %s`" % m.group(1))
-    m = re.search(r"for \(" + TY + r" (\w+) = 0; \1 < N; \+\+\1\) \{ for \(" + TY + r" (\w+) = 0; \2 < QT_NO_DIMS; \+\+\2\) \{ mean_Y\[\2\] \+= inp_data\[([^\]]+)\];", q)
+    m = re.search(r"for \(" + TY + r" (\w+) = 0; \1 < N; \+\+\1\) \{ for \(" + TY + r" (\w+) = 0; \2 < QT_NO_DIMS; \+\+\2\) \{ [^{}]*?\binp_data\[([^\]]+)\]", q)
     if not m:
         raise TranslateError("quadtree.hpp: constructor loop over inp_data[n * QT_NO_DIMS + d] not found")
     out.defn("qt_read_idx", ["n", "dd"], E(m.group(3), {m.group(1): "n", m.group(2): "dd", "QT_NO_DIMS": "qt_no_dims"}, what="qt read"),
@@ -1141,14 +1234,14 @@ def gen_sites(src, out):
         raise TranslateError("tsne.hpp: unexpected K expression %r" % m.group(1))
     out.raw("/-- `K = (int)(%s)` (truncation of a non-negative double; exact rational here) -/" % m.group(1))
     out.raw("def tsne_K (perp : Rat) : Int := ((%s : Rat) * perp).floor" % mm.group(1))
-    m = re.search(r"int max_iter = (\d+),", body)
+    m = re.search(r"\bint max_iter = (\d+)[,;]", body)
     if not m or not re.search(r"for \(" + TY + r" iter = 0; iter < max_iter; \+\+iter\)", body):
         raise TranslateError("tsne.hpp: main loop bound not found")
     out.defn("tsne_max_iter", [], "(%s : Int)" % m.group(1), "`int max_iter = %s`; main loop `iter < max_iter`" % m.group(1))
     s = src.norm(ft)
-    bis = re.findall(r"while \(!found && iter < (\d+)\)", s)
+    bis = re.findall(r"while \(!\w+ && iter < (\d+)\)", s)
     if len(bis) < 1 or len(set(bis)) != 1:
-        raise TranslateError("tsne.hpp: perplexity bisection bound `while (!found && iter < 200)` not found / not uniform: %r" % (bis,))
+        raise TranslateError("tsne.hpp: perplexity bisection bound `while (!found && iter < 200)` (or `for (; …;)`) not found / not uniform: %r" % (bis,))
     out.defn("tsne_bisection_max", [], "(%s : Int)" % bis[0], "`while (!found && iter < %s)` (%d sites), `iter++` at the end of every round" % (bis[0], len(bis)))
     if s.count("++iter;") < len(bis):
         raise TranslateError("tsne.hpp: bisection loops without `iter++`")
